@@ -547,7 +547,6 @@ mod verif_cex {
         let mut cases = 0u64;
         // (a) no pattern: every sequence of <= 4 lines over the 12-line alphabet, <= 5 lines over the
         //     7-line alphabet; x 6 direction spellings x {lexicographic, numeric}; layout 0.
-        let t0 = std::time::Instant::now();
         let mut fast = Fast::new(&parsers);
         let mut trim_configs = Vec::new();
         for direction in DIRECTIONS {
@@ -560,7 +559,10 @@ mod verif_cex {
                 fast.run("V1", &trim_configs, &seq, &mut cases);
             }
         }
-        eprintln!("TIMING a {:?} cases {}", t0.elapsed(), cases);
+        // (b) patterns (each case compiles a regex, ~1 ms in a debug build, hence the smaller scope):
+        //     every sequence of <= 2 lines over the annotated 12-line alphabet x {group, plain} x
+        //     {asc, desc, ASC} x {lexicographic, numeric}; every sequence of <= 3 lines over 9 of
+        //     them x 6 configurations; layout 0.
         let mut pattern_configs = Vec::new();
         for mode in [Mode::Group, Mode::Plain] {
             for direction in [Some("asc"), Some("desc"), Some("ASC")] {
@@ -569,11 +571,26 @@ mod verif_cex {
                 }
             }
         }
-        for seq in sequences(&PATTERN_ALPHABET, 3) {
+        for seq in sequences(&PATTERN_ALPHABET, 2) {
             fast.run("V1", &pattern_configs, &seq, &mut cases);
         }
-        eprintln!("TIMING b {:?} cases {}", t0.elapsed(), cases);
-        // (c) every layout: sequences of <= 3 lines over a 6-line alphabet, asc/desc, all three key modes.
+        let pattern_configs_3 = [
+            Config { direction: Some("asc"), mode: Mode::Group, format: None },
+            Config { direction: Some("desc"), mode: Mode::Group, format: None },
+            Config { direction: Some("asc"), mode: Mode::Plain, format: Some("numeric") },
+            Config { direction: Some("desc"), mode: Mode::Plain, format: Some("numeric") },
+            Config { direction: Some("asc"), mode: Mode::Plain, format: None },
+            Config { direction: Some("desc"), mode: Mode::Group, format: Some("numeric") },
+        ];
+        let nine: Vec<Sym> = [0usize, 1, 2, 4, 5, 7, 8, 10, 11].iter().map(|i| PATTERN_ALPHABET[*i]).collect();
+        for seq in sequences(&nine, 3) {
+            if seq.len() == 3 {
+                fast.run("V1", &pattern_configs_3, &seq, &mut cases);
+            }
+        }
+        // (c) every layout: no pattern: sequences of <= 3 lines over a 6-line alphabet x asc/desc;
+        //     patterns: sequences of <= 2 lines over 6 annotated lines x (group, lexicographic) and
+        //     (plain, numeric) x asc/desc.
         let small_trim = [t("b"), t("a"), t("  ab"), t(""), t("\u{e9} a "), t("10")];
         let small_pattern = [PATTERN_ALPHABET[0], PATTERN_ALPHABET[1], PATTERN_ALPHABET[4], PATTERN_ALPHABET[5], PATTERN_ALPHABET[10], PATTERN_ALPHABET[11]];
         for layout in 0..LAYOUTS {
@@ -582,7 +599,7 @@ mod verif_cex {
                     run_case("V1", &parsers, layout, &Config { direction, mode: Mode::Trim, format: None }, &seq, &mut cases);
                 }
             }
-            for seq in sequences(&small_pattern, 3) {
+            for seq in sequences(&small_pattern, 2) {
                 for (mode, format) in [(Mode::Group, None), (Mode::Plain, Some("numeric"))] {
                     for direction in [Some("asc"), Some("desc")] {
                         run_case("V1", &parsers, layout, &Config { direction, mode, format }, &seq, &mut cases);
@@ -590,10 +607,9 @@ mod verif_cex {
                 }
             }
         }
-        eprintln!("TIMING c {:?} cases {}", t0.elapsed(), cases);
         // (d) longer random blocks (seeded from VERIF_SEED).
         let mut rng = Lcg::from_env();
-        for _ in 0..3000 {
+        for _ in 0..1500 {
             let len = 6 + rng.next(10) as usize;
             let seq: Vec<Sym> = (0..len).map(|_| TRIM_ALPHABET[rng.next(12) as usize]).collect();
             let direction = DIRECTIONS[rng.next(6) as usize];
@@ -603,7 +619,7 @@ mod verif_cex {
         cex_none(
             "V1",
             cases,
-            "no pattern: all sequences of <=4 lines over {a,b,ab,'  a','b  ','','   ',2,10,9.5,-3,2.0} and <=5 lines over {a,b,'\\ta ','',10,9.5,B} x {asc,desc,'',ASC,Desc,bare} x {lexicographic,numeric}; patterns: all sequences of <=3 lines over 12 annotated `k=..` lines x {group,plain} x {asc,desc,ASC} x {lexicographic,numeric}; 6 comment layouts x sequences of <=3 lines; 3000 random blocks of 6..=15 lines",
+            "no pattern: all sequences of <=4 lines over {a,b,ab,'  a','b  ','','   ',2,10,9.5,-3,2.0} and <=5 lines over {a,b,'\\ta ','',10,9.5,B} x {asc,desc,'',ASC,Desc,bare} x {lexicographic,numeric}; patterns (regex compile is ~1 ms in debug): all sequences of <=2 lines over 12 annotated `k=..` lines x {group,plain} x {asc,desc,ASC} x {lexicographic,numeric}, all 3-line sequences over 9 of them x 6 configurations; 6 comment layouts x (no pattern: sequences of <=3 lines over 6 lines; patterns: <=2 lines); 1500 random blocks of 6..=15 lines",
         );
     }
 
